@@ -172,6 +172,10 @@ func ExprKey(v ssa.Value) string {
 			n = fv.Name()
 		}
 		return "(" + ExprKey(x.X) + ")." + n
+	case *ssa.IndexAddr:
+		return "&(" + ExprKey(x.X) + ")[" + ExprKey(x.Index) + "]"
+	case *ssa.Const:
+		return "const:" + x.String()
 	case *ssa.TypeAssert:
 		return "assert[" + x.AssertedType.String() + "](" + ExprKey(x.X) + ")"
 	case *ssa.Extract:
